@@ -1,8 +1,12 @@
 import RedisGoModel.Driver.Util
 import RedisGoModel.Exec.Dispatch
 import RedisGoModel.Conc.TraceCheck
+import RedisGoModel.Cluster.Snapshot
 /-! exec engine: `R` resets the model keyspace; `X <keys|*|-> <argv…> => <t0> <t1> <reply> <dump> fl=<…>` replays one command
-    on the model and compares the reply (decoded by the verified decoder `Resp.decode`) and the dumped keys (live view). -/
+    on the model and compares the reply (decoded by the verified decoder `Resp.decode`) and the dumped keys (live view).
+    Keyspace snapshot (C08): `G => <t0> <t1> <hex>` compares `MemDb.GetSnapshot()` byte for byte with `Snap.encode` of the model
+    keyspace; `L => <t0> <t1> <hex> ok|err <full dump>` (snapshot loaded into a fresh MemDb) replaces the model keyspace by
+    `Snap.decode (Snap.encode db)`; `LB <hex> => <t0> <t1> ok|err <full dump>` is `LoadSnapshot` of arbitrary bytes. -/
 namespace Driver
 open Exec Resp
 
@@ -55,6 +59,7 @@ structure ExecSt where
   db : Db := []
   dead : Bool := false          -- after a mismatch the rest of the program is skipped (states have diverged)
   cmds : Nat := 0
+  lenient : Nat := 0            -- LB lines the implementation accepted and the strict model decoder refuses
 
 def parseFl (s : String) : Nat → Option UInt64 :=
   let body := (s.drop 3).toString
@@ -124,11 +129,100 @@ def checkEvents (rest : List String) : Option String :=
         | none => some s!"a stripe is still held when the command returns: {ev}"
   | _ => none
 
+/-! ### keyspace snapshots (C08) -/
+
+def snapFirstDiff : List UInt8 → List UInt8 → Nat → Option Nat
+| [], [], _ => none
+| a :: as, b :: bs, i => if a == b then snapFirstDiff as bs (i + 1) else some i
+| _, _, i => some i
+
+def snapExcerpt (b : List UInt8) (i : Nat) : String :=
+  String.fromUTF8! ⟨((b.drop (i - 24)).take 64).toArray.map fun c => if 32 ≤ c && c < 127 then c else 63⟩
+
+/-- byte-for-byte comparison; the first differing offset and both excerpts (non-printable bytes as `?`) -/
+def snapCompareBytes (expected got : List UInt8) : Option String :=
+  match snapFirstDiff expected got 0 with
+  | none => none
+  | some i => some s!"snapshot bytes differ at offset {i} (expected {expected.length} bytes, got {got.length}): expected=…{snapExcerpt expected i}… got=…{snapExcerpt got i}…"
+
+/-- the model keyspace as the implementation physically holds it at the moment of the snapshot: an entry whose deadline has passed
+    by `t1` may or may not have been reaped (expiry timer, lazy deletion): it is kept exactly when the observed snapshot lists its key;
+    every other entry must be there -/
+def snapCandidate (db : Db) (obs : List UInt8) (t1 : Int) : Db :=
+  let present : Bytes → Bool := match Snap.decode obs with
+    | some o => fun k => o.any (·.1 == k)
+    | none => fun _ => true
+  db.filter fun p => match p.2.exp with
+    | some d => if d ≤ t1 then present p.1 else true
+    | none => true
+
+def snapLine (st : ExecSt) (fs : List String) : ExecSt × Option (Except String Bool) :=
+  match fs with
+  | ["G", "=>", "SKIP"] | ["L", "=>", "SKIP"] | ["LB", _, "=>", "SKIP"] | ["LB", "=>", "SKIP"] => (st, some (.ok false))
+  | "G" :: "=>" :: _t0 :: t1 :: [snap] =>
+    if st.dead then (st, some (.ok false)) else
+    match t1.toInt?, unhex snap with
+    | some t1, some obs =>
+      let cand := snapCandidate st.db obs t1
+      if !Snap.boundedB cand then ({ st with dead := true }, some (.error "model keyspace outside the value ranges of the Go types (Snap.boundedB)"))
+      else match snapCompareBytes (Snap.encode cand) obs with
+        | some d => ({ st with dead := true }, some (.error d))
+        | none => (st, some (.ok (!cand.isEmpty)))
+    | _, _ => ({ st with dead := true }, some (.error s!"implementation: GetSnapshot {snap}"))
+  | "L" :: "=>" :: _t0 :: t1 :: snap :: verdict :: [dump] =>
+    if st.dead then (st, some (.ok false)) else
+    match t1.toInt?, unhex snap with
+    | some t1, some obs =>
+      let cand := snapCandidate st.db obs t1
+      if !Snap.boundedB cand then ({ st with dead := true }, some (.error "model keyspace outside the value ranges of the Go types (Snap.boundedB)"))
+      else match snapCompareBytes (Snap.encode cand) obs with
+        | some d => ({ st with dead := true }, some (.error d))
+        | none =>
+          match Snap.decode (Snap.encode cand) with
+          | none => ({ st with dead := true }, some (.error "Snap.decode refuses Snap.encode of the model keyspace"))
+          | some db' =>
+            if verdict != "ok" then ({ st with dead := true }, some (.error "LoadSnapshot refused the snapshot GetSnapshot had just written"))
+            else match compareDump db' "*" dump t1 with
+              | some d => ({ st with dead := true }, some (.error ("restored keyspace: " ++ d)))
+              | none => ({ st with db := db' }, some (.ok (!cand.isEmpty)))
+    | _, _ => ({ st with dead := true }, some (.error s!"implementation: GetSnapshot {snap}"))
+  | "L" :: "=>" :: _ => ({ st with dead := true }, some (.error "implementation: snapshot/load did not complete"))
+  | "G" :: "=>" :: _ => ({ st with dead := true }, some (.error "implementation: snapshot did not complete"))
+  | "LB" :: rest =>
+    if st.dead then (st, some (.ok false)) else
+    let (hexS, obsS) := rest.span (· != "=>")
+    match (hexS.headD "-" |> unhex), obsS with
+    | some data, "=>" :: _t0 :: t1 :: verdict :: [dump] =>
+      match t1.toInt? with
+      | none => (st, some (.error "bad timestamps"))
+      | some t1 =>
+        match Snap.decode data with
+        | some db' =>
+          -- the strict decoder accepts: the implementation must accept too, with the same keyspace
+          if verdict != "ok" then ({ st with dead := true }, some (.error "Snap.decode accepts these bytes, LoadSnapshot refused them"))
+          else (match compareDump db' "*" dump t1 with
+            | some d => ({ st with dead := true }, some (.error ("loaded keyspace: " ++ d)))
+            | none => ({ st with db := db' }, some (.ok true)))
+        | none =>
+          if verdict == "ok" then
+            -- accepted by Go's lenient reader only: not a mismatch unless the bytes are the canonical snapshot of the current keyspace
+            if data == Snap.encode st.db && Snap.boundedB st.db then
+              ({ st with dead := true }, some (.error "Snap.decode refuses the canonical snapshot of the current keyspace"))
+            else ({ st with dead := true, lenient := st.lenient + 1 }, some (.ok false))
+          else
+            -- refused on both sides: "on error the keyspace is unchanged"
+            (match compareDump st.db "*" dump t1 with
+            | some d => ({ st with dead := true }, some (.error ("keyspace changed by a refused LoadSnapshot: " ++ d)))
+            | none => (st, some (.ok false)))
+    | _, _ => ({ st with dead := true }, some (.error "implementation: LoadSnapshot did not complete"))
+  | _ => (st, none)
+
 /-- returns (new state, verdict): `ok nontrivial` or `error detail` -/
 def execLine (st : ExecSt) (fs : List String) : ExecSt × Option (Except String Bool) :=
   match fs with
-  | "R" :: _ => ({}, some (.ok false))
+  | "R" :: _ => ({ lenient := st.lenient }, some (.ok false))
   | "A" :: _ => (st, some (.ok false))
+  | "G" :: _ | "L" :: _ | "LB" :: _ => snapLine st fs
   | "X" :: spec :: rest =>
     let (argvS, obsS) := rest.span (· != "=>")
     if st.dead then (st, some (.ok false)) else
